@@ -45,11 +45,48 @@ def run(chk):
     chk.call(r4_odd_in_sign, chk)
     chk.call(r5_determinism, chk, cf)
     chk.call(r6_bonds_through_api, chk, cf)
+    chk.call(r5_first_label_wins, chk, cf)
 
 
 # ---------------------------------------------------------------------------
 def _xml_attrs(p):
     return {t[len("const:'"):-1] for t in p if t.startswith("const:'")}
+
+
+def r5_first_label_wins(chk, cf):
+    """"a label always resolves to the same fragment": when a drawing repeats a label the registry keeps the text box registered
+    first (the constructor's own warning says so) - a later occurrence never replaces it.  Every store into `xlabels` is either
+    `setdefault`, or an item store reached only where the key is known to be absent; `update(...)` / a wholesale rebuild over all
+    text boxes lets the last one win."""
+    from ..canon import path_conditions
+
+    init = chk.prog.method(cf, "__attrs_post_init__")
+    chk.require(init is not None, "CDXMLFile.__attrs_post_init__ vanished")
+    chk.analysed(init)
+    key = f"{init.key}:repeated-label-keeps-the-first-text-box"
+    sites, bad = 0, None
+    for s_ in walk_no_nested(init.node):
+        if isinstance(s_, ast.Assign):
+            for t in s_.targets:
+                if isinstance(t, ast.Subscript) and norm(t.value) == "self.xlabels":
+                    sites += 1
+                    k = norm(t.slice)
+                    pcs = [norm(c) for c in path_conditions(init.node, s_)]
+                    kn = {k} | {n for n in names_in(t.slice)}
+                    if not any(c.endswith(" not in self.xlabels") and (c.split(" not in ")[0] in kn or c.split(" not in ")[0].strip("()").split(" := ")[0] in kn) for c in pcs):
+                        bad = bad or (s_, f"`{short(s_, 50)}` also runs when the label is already registered")
+                elif norm(t) == "self.xlabels" and not (isinstance(s_.value, ast.Dict) and not s_.value.keys) and not (isinstance(s_.value, ast.Call) and not s_.value.args):
+                    sites += 1
+                    bad = bad or (s_, f"`{short(s_, 50)}` rebuilds the registry over all text boxes: the last occurrence of a repeated label wins")
+        if isinstance(s_, ast.Expr) and isinstance(s_.value, ast.Call) and isinstance(s_.value.func, ast.Attribute) and norm(s_.value.func.value) == "self.xlabels":
+            if s_.value.func.attr == "setdefault":
+                sites += 1
+            elif s_.value.func.attr in ("update", "__setitem__"):
+                sites += 1
+                bad = bad or (s_, f"`{short(s_, 50)}` lets the last occurrence of a repeated label replace the first")
+    chk.require(sites >= 1, f"{init.key}: no store into xlabels found")
+    chk.decide(bad is None, "C13.R5", key, init.where(bad[0] if bad else None), "labels are registered with setdefault / under `not in xlabels`",
+               (bad[1] + ": the label resolves to another fragment than the one the (unchanged) warning promises") if bad else "")
 
 
 def r1_attributes(chk, cf):
